@@ -216,6 +216,24 @@ def main():
         lines += l
         crashes += [(i, rc, err, "san") for i, rc, err in c]
 
+    # ---- C04: small plain DAGs re-run under many schedules; completion orders reached vs possible
+    small_cov = None
+    if prop == "C04":
+        shapes = 8 if tier == "quick" else 60
+        per = 150 if tier == "quick" else 1500
+        seen, linext = collections.defaultdict(set), {}
+        for si in range(shapes):
+            l, c2 = run_workers(exe, "C04S", tier, seed, 0, per, outdir, extra=["--scen-seed", str(1000 + si * 7919 + seed)], nworkers=min(NWORKERS, 8))
+            crashes += [(i, rc, err, "plain") for i, rc, err in c2]
+            for d in l:
+                if "small" in d:
+                    seen[d["small"]["shape"]].add(d["small"]["order"])
+                    linext[d["small"]["shape"]] = d["small"]["linext"]
+                for v in d["viol"]:
+                    if v["prop"] == prop:
+                        d2 = dict(d); d2["run"] = d["run"]; lines.append(d2)
+        small_cov = [{"shape": k, "linear_extensions": linext[k], "orders_reached": len(v), "ratio": round(len(v) / max(1, linext[k]), 3)} for k, v in seen.items()]
+
     # ---- aggregate
     agg_n, agg_f = collections.Counter(), collections.Counter()
     sigs, sigs_nt = set(), set()
@@ -349,6 +367,7 @@ def main():
             "known_findings_hit": {k[0]: n for k, n in known_hit.items()},
             "unreset_globals": unreset,
             "worker_crashes": len(crashes),
+            **({"small_graph_order_coverage": small_cov} if small_cov is not None else {}),
             "components": {
                 "real": ["every src/*.cc of the POSIX ninja binary incl. ninja.cc main loop, subprocess-posix.cc, "
                          "jobserver-posix.cc, real_command_runner.cc, disk_interface.cc, status_printer.cc, line_printer.cc; glibc stdio buffering"],
